@@ -44,6 +44,17 @@ Parent == [p \in Paths \ {Root} |-> IF p = "/a/b" THEN "/a" ELSE "/"]
 \* last path component, as listed by the parent's introspection data
 Leaf   == [p \in Paths \ {Root} |-> CASE p = "/a" -> "a" [] p = "/a/b" -> "b" [] p = "/c" -> "c"]
 
+(* Concrete element names.  The model is about the shape of the tree only: every statement below must hold whatever
+   the elements are called, in particular when an element's text occurs again elsewhere in a path ("/a/a"), is a
+   substring of its parent's ("/dev10/1") or a sibling's name is a prefix of another's ("/a", "/aa").  A naming gives
+   the element names of /a, of b below /a, and of /c; the conformance harness replays every history under the naming
+   its generator attached and translates observed paths back to the abstract ones. *)
+Namings == << <<"a", "b", "c">>, <<"a", "a", "aa">>, <<"dev10", "1", "dev">>, <<"ab", "a", "b">>, <<"a_b", "b", "a">>,
+              <<"b", "c", "a">> >>
+Concrete(n) == [p \in Paths |-> CASE p = "/" -> "/" [] p = "/a" -> "/" \o n[1] [] p = "/a/b" -> "/" \o n[1] \o "/" \o n[2]
+                                   [] p = "/c" -> "/" \o n[3]]
+NamingOk(n) == \A p, q \in Paths : p # q => Concrete(n)[p] # Concrete(n)[q]
+
 RECURSIVE Ancestors(_)
 Ancestors(p) == IF p = Root THEN {} ELSE {Parent[p]} \cup Ancestors(Parent[p])   \* strict
 Below(m)     == {q \in Paths : m \in Ancestors(q)}                                \* strict
